@@ -389,6 +389,46 @@ pub fn run_core<F: PF>(ctx: &mut Ctx) {
     }
 }
 
+/// `Fq::shl(0)` in a child process (blst's shift loops are `do { … } while (--count)` on a
+/// 32-bit counter: a zero count runs 2^32 iterations and returns x·2^(2^32)).
+pub fn probe_shift_zero_child() {
+    let x = BlsFq::from(5u64);
+    println!("{}", hx(&x.shl(0)));
+}
+
+fn probe_shift_zero(ctx: &mut Ctx) {
+    let exe = std::env::current_exe().unwrap();
+    let mut child = std::process::Command::new(exe)
+        .arg("--probe-shift-zero")
+        .stdout(std::process::Stdio::piped())
+        .stderr(std::process::Stdio::null())
+        .spawn()
+        .expect("spawn probe");
+    let t0 = Instant::now();
+    let finished = loop {
+        match child.try_wait().unwrap() {
+            Some(_) => break true,
+            None if t0.elapsed() > Duration::from_secs(3) => {
+                let _ = child.kill();
+                let _ = child.wait();
+                break false;
+            }
+            None => std::thread::sleep(Duration::from_millis(20)),
+        }
+    };
+    let mut out = String::new();
+    if let Some(mut so) = child.stdout.take() {
+        let _ = so.read_to_string(&mut out);
+    }
+    if !finished || out.trim() != "0x5" {
+        ctx.oracle_fail(
+            "bls12_381:shift-by-zero",
+            "bls12_381 Fq::shl/shr, Fp::shl, Fp2::shl with count = 0 run 2^32 loop iterations in blst and return x·2^(±2^32) instead of x",
+            json!({"call": "Fq::from(5).shl(0)", "finished_within_3s": finished, "got": out.trim(), "replay": "h-c10 --probe-shift-zero"}),
+        );
+    }
+}
+
 /// Sum / Product over iterators of references, run in a child process with a timeout
 /// (regression of the self-recursive `impl Sum<&T> for T`, defect E1).
 pub fn probe_sum_ref_child() {
@@ -630,7 +670,7 @@ fn run_bls_extras(ctx: &mut Ctx) {
         let av = big_hex(v);
         let nt = *c == "random";
         ctx.case("mul3", nt, &format!("pf BlsFq mul_small {av} 0x3"), &hx(&a.mul3()));
-        for k in [0usize, 1, 2, 7] {
+        for k in [1usize, 2, 7, 63, 64, 255] {
             ctx.case("shl", nt, &format!("pf BlsFq shl {av} 0x{k:x}"), &hx(&a.shl(k)));
             ctx.case("shr", nt, &format!("pf BlsFq shr {av} 0x{k:x}"), &hx(&a.shr(k)));
         }
@@ -684,7 +724,7 @@ fn run_bls_extras(ctx: &mut Ctx) {
         let nt = *c == "random";
         ctx.case("mul3", nt, &format!("pf BlsFp mul_small {av} 0x3"), &hx(&a.mul3()));
         ctx.case("mul8", nt, &format!("pf BlsFp mul_small {av} 0x8"), &hx(&a.mul8()));
-        for k in [0usize, 1, 2, 7] {
+        for k in [1usize, 2, 7, 63, 64, 255] {
             ctx.case("shl", nt, &format!("pf BlsFp shl {av} 0x{k:x}"), &hx(&a.shl(k)));
         }
         ctx.case("num_bits", nt, &format!("pf BlsFp num_bits {av}"), &format!("{}", a.num_bits()));
@@ -750,7 +790,19 @@ fn run_c25519_extras(ctx: &mut Ctx) {
     for (c, v) in &cls {
         let a = fe::<C25519Fp>(v);
         let av = big_hex(v);
-        ctx.case("lex_largest", *c == "random", &format!("pf C25519Fp lex_largest {av}"), &format!("{}", a.lexicographically_largest().unwrap_u8()));
+        let ll = a.lexicographically_largest().unwrap_u8();
+        let l = a.0;
+        ctx.case("lf.lex_largest", *c == "random", &format!("lf C25519Fp lex_largest 0x{:x},0x{:x},0x{:x},0x{:x}", l[0], l[1], l[2], l[3]), &format!("{ll}"));
+        // the specification: strictly larger than the negation
+        let spec = *v > (&modulus::<C25519Fp>() - v) % modulus::<C25519Fp>();
+        if (ll == 1) != spec {
+            let key = if *v == (modulus::<C25519Fp>() - 1u32) / 2u32 {
+                "curve25519.Fp:lexicographically_largest:(p-1)/2".to_string()
+            } else {
+                format!("C25519Fp:lex_largest:{av}")
+            };
+            fail(ctx, key, "curve25519 Fp::lexicographically_largest(x) differs from x > -x", json!({"x": av, "got": ll}));
+        }
         let js = serde_json::to_string(&a).unwrap();
         let back: Result<C25519Fp, _> = serde_json::from_str(&js);
         if back.ok() != Some(a) || BigUint::from_bytes_le(&a.to_bytes()) != *v || Option::<C25519Fp>::from(C25519Fp::from_bytes(&a.to_bytes())) != Some(a) {
@@ -875,4 +927,5 @@ pub fn run(ctx: &mut Ctx) {
     run_jubjub_extras(ctx);
     stage("probe_sum_ref(ctx);");
     probe_sum_ref(ctx);
+    probe_shift_zero(ctx);
 }
